@@ -465,11 +465,38 @@ pub fn with_shared_provider<R>(
 }
 
 /// Forgets the process-wide provider (cache, poison flag); the next use builds
-/// a new one.
+/// a new one. Returns `false` (and does nothing) if the provider is no longer
+/// stored in a [`sync::LazyLock`], i.e. cannot be reset in place.
 ///
 /// # Safety
 /// No other thread may be using the convenience API.
 #[cfg(feature = "compiled_data")]
-pub unsafe fn reset_shared_provider() {
-    crate::builtins::TZ_PROVIDER.reset()
+pub unsafe fn reset_shared_provider() -> bool {
+    use reset_detail::{Fallback as _, Probe, Typed as _};
+    (&Probe(&crate::builtins::TZ_PROVIDER)).try_reset()
+}
+
+/// Method-resolution trick: `Typed` applies when the static is one of our
+/// `LazyLock`s, otherwise the auto-ref'd `Fallback` is picked — so this file
+/// keeps compiling whatever type a refactor gives `TZ_PROVIDER`.
+#[cfg(feature = "compiled_data")]
+mod reset_detail {
+    pub struct Probe<'a, T>(pub &'a T);
+    pub trait Typed {
+        unsafe fn try_reset(&self) -> bool;
+    }
+    impl<T, F: Fn() -> T> Typed for Probe<'_, super::sync::LazyLock<T, F>> {
+        unsafe fn try_reset(&self) -> bool {
+            self.0.reset();
+            true
+        }
+    }
+    pub trait Fallback {
+        unsafe fn try_reset(&self) -> bool;
+    }
+    impl<T> Fallback for &Probe<'_, T> {
+        unsafe fn try_reset(&self) -> bool {
+            false
+        }
+    }
 }
